@@ -226,6 +226,8 @@ def checkPassSegs (p : DPass) (stage : String) (regs : List (DRegion × List Nat
   let mut assign : Array (Option Nat) := Array.replicate base.length none
   let mut rpos := 0
   let here := s!"segment tie, pass {p.idx} (dim {dim}, {stage}, option nudgeFinal={p.nf})"
+  -- cache entries pointing beyond the route (set_route drops the cache update of simplify()): Props/C10Segs.stale_cache_entries_protect_nothing
+  if p.conns.any (fun c => c.cache.any (fun e => decide (e.1 > 2 * (c.ps.length - 1)))) then stats := "segtie.cache-stale" :: stats
   let cur (routes : List (Nat × Array Pt)) (m : MSeg) : Rat × Rat × Rat :=
     match lookup routes m.seg.conn with
     | some r => ((r.getD m.idxLow default).c ad, (r.getD m.idxHigh default).c ad, (r.getD m.idxLow default).c dim)
